@@ -1014,6 +1014,9 @@ type LazyCase struct {
 	// MacroCall: the script that makes the first call opens every family the configuration keeps closed with
 	// `// #EnableDice <family> true` lines of its own: a macro is for its input, not for a body compiled while it runs
 	MacroCall bool `json:"macroCall,omitempty"`
+	// FirstFlags: the value is used a first time while the host had these seven switches set (bits as in Step.Flip), then
+	// the host writes Cfg's switches and the value is used again: what it runs then was compiled for the switches in force
+	FirstFlags *int `json:"firstFlags,omitempty"`
 }
 
 func macroFor(c vmx.Cfg, on bool) string {
@@ -1049,9 +1052,25 @@ func checkLazy(c LazyCase, s *rt.Section) (f *rt.Failure, compiled bool, gated [
 		return nil, false, nil
 	}
 	vm := c.Cfg.NewVM()
+	if c.FirstFlags != nil && (c.How == "runexpr" || c.How == "defside") {
+		c.FirstFlags = nil // those bodies are not kept between uses
+	}
+	if c.FirstFlags != nil {
+		withFlags(c.Cfg, *c.FirstFlags).Apply(vm)
+	}
 	before := snapCfg(vm)
 	var val *ds.VMValue
 	var err error
+	// secondUse: the host changes the switches to Cfg's and uses the value again
+	secondUse := func(src string) *rt.PanicInfo {
+		if c.FirstFlags == nil {
+			return nil
+		}
+		c.Cfg.Apply(vm)
+		before = snapCfg(vm)
+		pi, _ := guarded(func() { _ = vm.Run(src) })
+		return pi
+	}
 	fail := func(pi *rt.PanicInfo, where string) *rt.Failure {
 		return s.NewFailure("no-panic", pi.Sig(), c, where+" panics: "+pi.Value+"\n"+pi.Stack, "a value or an error")
 	}
@@ -1075,6 +1094,9 @@ func checkLazy(c LazyCase, s *rt.Section) (f *rt.Failure, compiled bool, gated [
 		if pi, _ := guarded(func() { _ = vm.Run(macroFor(c.Cfg, c.MacroCall) + "g()") }); pi != nil {
 			return fail(pi, "calling the restored function"), false, nil
 		}
+		if pi := secondUse("g()"); pi != nil {
+			return fail(pi, "calling the restored function again after the switches changed"), false, nil
+		}
 	case "computed-json", "computed-new":
 		val = ds.NewComputedVal(c.Body)
 		if c.How == "computed-json" {
@@ -1086,6 +1108,9 @@ func checkLazy(c LazyCase, s *rt.Section) (f *rt.Failure, compiled bool, gated [
 		vm.Attrs.Store("g", val)
 		if pi, _ := guarded(func() { _ = vm.Run(macroFor(c.Cfg, c.MacroCall) + "g") }); pi != nil {
 			return fail(pi, "loading the restored computed value"), false, nil
+		}
+		if pi := secondUse("g"); pi != nil {
+			return fail(pi, "loading the restored computed value again after the switches changed"), false, nil
 		}
 	case "runexpr", "defside":
 		// the body compiled inside RunExpr / for DefaultDiceSideExpr is not reachable from outside; the same
@@ -1141,11 +1166,6 @@ func checkLazy(c LazyCase, s *rt.Section) (f *rt.Failure, compiled bool, gated [
 		}
 		if eb == nil {
 			rb = vmx.Repr(b)
-		}
-		if ra != rb && strings.Contains(c.Body, "{") && sortedBytes(ra) == sortedBytes(rb) {
-			// text built from a dict with several keys follows Go map order: the same characters in another order
-			s.Class("twin-equal-up-to-dict-order")
-			rb = ra
 		}
 		if ra != rb || vmx.SeedHex(vmA) != vmx.SeedHex(vm) {
 			return s.NewFailure("twin-agrees", "lazy:twin-differs:"+c.How, c,
@@ -1423,6 +1443,13 @@ func TestProp(t *testing.T) {
 			c := LazyCase{Cfg: drawCfg(t)}
 			c.How = rapid.SampledFrom([]string{"func-json", "func-raw", "computed-json", "computed-new", "runexpr", "defside"}).Draw(t, "how")
 			c.MacroCall = rapid.IntRange(0, 2).Draw(t, "macroCall") == 0
+			if rapid.IntRange(0, 3).Draw(t, "firstFlags") == 0 {
+				b := rapid.SampledFrom([]int{15, 15, 0, 127}).Draw(t, "firstFlagsTo")
+				if b == 127 {
+					b = rapid.IntRange(0, 127).Draw(t, "firstFlagsAny")
+				}
+				c.FirstFlags = &b
+			}
 			if c.How == "defside" && c.Cfg.NoNDice {
 				c.How = "runexpr" // a side-less d is an identifier under DisableNDice: nothing would be compiled
 			}
